@@ -6,6 +6,8 @@ import (
 	"os"
 	"os/exec"
 	"path/filepath"
+	"strings"
+	"time"
 )
 
 // GVR is the genesis validators root used by CLI-driven checks.
@@ -27,7 +29,20 @@ func DirkBin() (string, error) {
 }
 
 // CLI runs the real dirk binary against a storage directory.
+// A directory lock can be held for an instant by another goroutine's freshly forked child (descriptors are only
+// closed at exec), so "cannot acquire directory lock" is retried a few times; it never reflects Dirk's behaviour.
 func CLI(storageDir string, args ...string) (int, string, string, error) {
+	for attempt := 0; ; attempt++ {
+		code, so, se, err := cliOnce(storageDir, args...)
+		if err == nil && code != 0 && strings.Contains(se, "Cannot acquire directory lock") && attempt < 20 {
+			time.Sleep(time.Duration(20*(attempt+1)) * time.Millisecond)
+			continue
+		}
+		return code, so, se, err
+	}
+}
+
+func cliOnce(storageDir string, args ...string) (int, string, string, error) {
 	bin, err := DirkBin()
 	if err != nil {
 		return -1, "", "", err
